@@ -46,6 +46,10 @@ def gen_sequences(chk, thorough):
         for n in ((1 << 14) - 1, 1 << 14, (1 << 14) + 9):
             out.append((w, [m - 1] * n))          # multi-byte RLE header
             out.append((w, [0] * n + [1]))
+    # RLE runs whose header needs three and four bytes (2^13, 2^20 repeats): a page of a million equal levels
+    for w, n in ((1, (1 << 20) - 1), (2, 1 << 20), (3, (1 << 20) + 9), (4, (1 << 20) + 5), (1, (1 << 13) + 3), (3, 1 << 13)):
+        out.append((w, [1] * n))
+        out.append((w, [0, 1, 0] + [(1 << w) - 1] * n + [0]))
     n = 30000 if thorough else 6000
     for _ in range(n):
         w = chk.rng.randrange(1, 5)
